@@ -104,14 +104,14 @@ theorem runsP_metadataStep {β : Type} (k : Option GeometryMetadata → DecM β)
 
 /-- `PointCloudDecoder::DecodePointAttributes` with kd-tree attribute decoders reads back
     `EncodePointAttributes` of the kd-tree encoder -/
-theorem runsP_decodePointAttributesKd (ch : Choices) (hpart : PartSpec ch.part) (opts : EncOpts)
+theorem runsP_decodePointAttributesKd_with (dopts : DecOpts) (ch : Choices) (hpart : PartSpec ch.part) (opts : EncOpts)
     (n v : Nat) (atts : List Attribute) (bs : Bytes) (encs : List AttEnc) (hv : bsVersion 2 0 ≤ v)
     (hna : atts.length < 2 ^ 32) (hok : ∀ i a, atts[i]? = some a → AttOK a (opts.att i) n)
     (hsz : 32 * ((2 * (atts.map (·.numComponents)).sum + 3) *
       (n * (32 * (atts.map (·.numComponents)).sum + 1) + 1)) + 3 < 2 ^ 32)
     (henc : encodePointAttributes ch opts n atts = some (bs, encs)) :
-    RunsP (decodePointAttributesKd {} n) v bs
-      (fun r => ∃ pts', pts'.Perm (pointVector n encs) ∧ r = (geometryOfPoints n encs pts').atts) v := by
+    RunsP (decodePointAttributesKd dopts n) v bs
+      (fun r => ∃ pts', pts'.Perm (pointVector n encs) ∧ r = (geometryOfPointsWith dopts n encs pts').atts) v := by
   unfold encodePointAttributes at henc
   unfold decodePointAttributesKd
   split at henc
@@ -120,7 +120,7 @@ theorem runsP_decodePointAttributesKd (ch : Choices) (hpart : PartSpec ch.part) 
     refine RunsP.bindR1 (Runs.rdU8 0 v) ?_
     refine RunsP.bindR0 (by simpa [replicateM', mapM'] using Runs.pure ([] : List (List AttDesc)) v) ?_
     refine RunsP.bindR0 (by simpa [mapM'] using Runs.pure ([] : List (List Attribute)) v) ?_
-    exact RunsP.pure _ v ⟨pointVector n [], List.Perm.refl _, by simp [geometryOfPoints, kdAttsOf, zip3With]⟩
+    exact RunsP.pure _ v ⟨pointVector n [], List.Perm.refl _, by simp [geometryOfPointsWith, kdAttsOf, zip3With]⟩
   · rename_i hemp
     split at henc
     · cases henc
@@ -179,15 +179,15 @@ theorem runsP_decodePointAttributesKd (ch : Choices) (hpart : PartSpec ch.part) 
             exact this
           refine RunsP.bindR hrep ?_
           -- the attributes
-          have hatt := runsP_decodeKdAttributes ch hpart n v (compressionLevel opts.speed (dimOf encs''))
+          have hatt := runsP_decodeKdAttributes_with dopts ch hpart n v (compressionLevel opts.speed (dimOf encs''))
             encs'' hne hf hl6 (compressionLevel_six _ _) hsz
           generalize hkb : (compressionLevel opts.speed (dimOf encs'') ::
               (Kd.encodePoints ch.part Generated.fastdivTab ch.zeroProbRaw (compressionLevel opts.speed (dimOf encs''))
                   (dimOf encs'') (numBits (pointVector n encs'')) (pointVector n encs'') ++
                 ((encs''.flatMap fun e => quantParamBytes e.transform) ++
                   (encs''.flatMap fun e => signedMinBytes e.transform)))) = kb at hatt
-          have hmap : RunsP (mapM' (decodeKdAttributes {} n) [encs''.map (·.desc)]) v kb
-              (fun r => ∃ pts', pts'.Perm (pointVector n encs'') ∧ r = [(geometryOfPoints n encs'' pts').atts]) v := by
+          have hmap : RunsP (mapM' (decodeKdAttributes dopts n) [encs''.map (·.desc)]) v kb
+              (fun r => ∃ pts', pts'.Perm (pointVector n encs'') ∧ r = [(geometryOfPointsWith dopts n encs'' pts').atts]) v := by
             simp only [mapM']
             refine RunsP.bind' hatt (List.append_nil _).symm ?_
             intro a ha
@@ -199,14 +199,25 @@ theorem runsP_decodePointAttributesKd (ch : Choices) (hpart : PartSpec ch.part) 
           obtain ⟨pts', hp1, hp2⟩ := hr
           exact RunsP.pure _ v ⟨pts', hp1, by rw [hp2]; simp⟩
 
+/-- the ordinary decode (`DecOpts = {}`) -/
+theorem runsP_decodePointAttributesKd (ch : Choices) (hpart : PartSpec ch.part) (opts : EncOpts)
+    (n v : Nat) (atts : List Attribute) (bs : Bytes) (encs : List AttEnc) (hv : bsVersion 2 0 ≤ v)
+    (hna : atts.length < 2 ^ 32) (hok : ∀ i a, atts[i]? = some a → AttOK a (opts.att i) n)
+    (hsz : 32 * ((2 * (atts.map (·.numComponents)).sum + 3) *
+      (n * (32 * (atts.map (·.numComponents)).sum + 1) + 1)) + 3 < 2 ^ 32)
+    (henc : encodePointAttributes ch opts n atts = some (bs, encs)) :
+    RunsP (decodePointAttributesKd {} n) v bs
+      (fun r => ∃ pts', pts'.Perm (pointVector n encs) ∧ r = (geometryOfPoints n encs pts').atts) v :=
+  runsP_decodePointAttributesKd_with {} ch hpart opts n v atts bs encs hv hna hok hsz henc
+
 /-- the composed theorem in `RunsP` form, for any Edgebreaker body decoder -/
-theorem runsP_decodeStreamWith (eb : DecOpts → DecM Geometry) (ch : Choices) (hpart : PartSpec ch.part)
+theorem runsP_decodeStreamWith_with (dopts : DecOpts) (eb : DecOpts → DecM Geometry) (ch : Choices) (hpart : PartSpec ch.part)
     (g : Geometry) (md : Option GeometryMetadata) (opts : EncOpts) (bs : Bytes) (encs : List AttEnc)
     (hok : GeomOK g opts) (hmd : ∀ m, md = some m → m.WF')
     (henc : encodeGeometryKdFull ch g md opts = some (bs, encs)) :
-    RunsP (decodeStreamWith eb Kd.decodeKdGeometry {}) 0 bs
+    RunsP (decodeStreamWith eb Kd.decodeKdGeometry dopts) 0 bs
       (fun r => r.metadata = md ∧ ∃ pts', pts'.Perm (pointVector g.numPoints encs) ∧
-        r.geometry = geometryOfPoints g.numPoints encs pts') (bsVersion 2 3) := by
+        r.geometry = geometryOfPointsWith dopts g.numPoints encs pts') (bsVersion 2 3) := by
   unfold encodeGeometryKdFull at henc
   split at henc
   · cases henc
@@ -225,7 +236,7 @@ theorem runsP_decodeStreamWith (eb : DecOpts → DecM Geometry) (ch : Choices) (
       rw [if_neg (by show ¬ (false = true); exact Bool.false_ne_true),
         if_neg (by show ¬ (false = true); exact Bool.false_ne_true)]
       refine RunsP.bindR0 (Runs.setVersion _ 0) ?_
-      have hatts := runsP_decodePointAttributesKd ch hpart opts g.numPoints (bsVersion 2 3) g.atts ab encs'
+      have hatts := runsP_decodePointAttributesKd_with dopts ch hpart opts g.numPoints (bsVersion 2 3) g.atts ab encs'
         (by decide) hok.natts hok.atts hok.size hab
       have hp31 := hok.points31
       have hnp : g.numPoints % 2 ^ 32 = g.numPoints := Nat.mod_eq_of_lt (by omega)
@@ -240,9 +251,9 @@ theorem runsP_decodeStreamWith (eb : DecOpts → DecM Geometry) (ch : Choices) (
       refine runsP_metadataStep _ md mdBytes _ _ (bsVersion 2 3) (bsVersion 2 3) _ (by decide) rfl hmd hmdb ?_
       rw [if_neg (by show ¬ (true && false) = true; decide), if_pos (by decide)]
       -- PointCloudKdTreeDecoder
-      have hkd : RunsP (Kd.decodeKdGeometry {}) (bsVersion 2 3) (writeLE 4 g.numPoints ++ ab)
+      have hkd : RunsP (Kd.decodeKdGeometry dopts) (bsVersion 2 3) (writeLE 4 g.numPoints ++ ab)
           (fun g' => ∃ pts', pts'.Perm (pointVector g.numPoints encs') ∧
-            g' = geometryOfPoints g.numPoints encs' pts') (bsVersion 2 3) := by
+            g' = geometryOfPointsWith dopts g.numPoints encs' pts') (bsVersion 2 3) := by
         unfold Kd.decodeKdGeometry
         refine RunsP.bindR0 (Runs.version _) ?_
         rw [if_neg (by decide)]
@@ -258,5 +269,15 @@ theorem runsP_decodeStreamWith (eb : DecOpts → DecM Geometry) (ch : Choices) (
       refine RunsP.bind' hkd (List.append_nil _).symm ?_
       intro g' hg'
       exact RunsP.pure _ _ ⟨rfl, hg'⟩
+
+/-- the ordinary decode (`DecOpts = {}`) -/
+theorem runsP_decodeStreamWith (eb : DecOpts → DecM Geometry) (ch : Choices) (hpart : PartSpec ch.part)
+    (g : Geometry) (md : Option GeometryMetadata) (opts : EncOpts) (bs : Bytes) (encs : List AttEnc)
+    (hok : GeomOK g opts) (hmd : ∀ m, md = some m → m.WF')
+    (henc : encodeGeometryKdFull ch g md opts = some (bs, encs)) :
+    RunsP (decodeStreamWith eb Kd.decodeKdGeometry {}) 0 bs
+      (fun r => r.metadata = md ∧ ∃ pts', pts'.Perm (pointVector g.numPoints encs) ∧
+        r.geometry = geometryOfPoints g.numPoints encs pts') (bsVersion 2 3) :=
+  runsP_decodeStreamWith_with {} eb ch hpart g md opts bs encs hok hmd henc
 
 end Draco.KdEnc
